@@ -80,19 +80,31 @@ def judge(prog, run, r):
     hostname = {}
     for n, h in run.ctx.host.items():
         hostname[n] = getattr(h, "vname", None) or "doist"
+
+    def host_at(name, enter_seq):
+        """Host of the lifecycle of `name` that was entered at enter_seq (a pool doer can be extended into one
+        scheduler, be closed, and later be extended into another)."""
+        best = None
+        for seq, n, h in run.ctx.host_log:
+            if n == name and seq <= enter_seq:
+                best = h
+        if best is None:
+            return hostname.get(name, "?")
+        return getattr(best, "vname", None) or "doist"
     for what, items in groups:
         # the statement is per scheduler: the doers one scheduler closes are its own doers, so the
         # reverse-enter-order clause is applied among the doers of one host (an aborting DoDoer has to close
         # its children while the exception unwinds, before outer schedulers close theirs)
         by_host = {}
         for it in items:
-            h = hostname.get(it[0], "?")
-            if what == "final stop":
-                members = run.doers if h == "doist" else run.kids.get(h, [])
-                if it[0] not in members:
-                    # a doer that removed itself keeps running but is no longer one of the scheduler's
-                    # doers: its place in the closing order is not defined by the statement
-                    continue
+            h = host_at(it[0], it[1])
+            members = run.doers if h == "doist" else run.kids.get(h, [])
+            if it[0] not in members and (what == "final stop" or h != "doist"):
+                # a doer that removed itself keeps running but is no longer one of the scheduler's
+                # doers: its place in the closing order is not defined by the statement.  This also holds
+                # for the children of a DoDoer that is force-closed inside a remove() call of an outer
+                # scheduler (the DoDoer closes whatever it still runs; only its members are ordered).
+                continue
             by_host.setdefault(h, []).append(it)
         for h, sub in sorted(by_host.items()):
             msg = order_check(run, sub, "%s, doers of %s" % (what, h))
